@@ -174,8 +174,36 @@ def arith_matrix(rng, per_op=3):
     return out
 
 
+def alloca_programs(rng, n=6):
+    """Frame-pointer idiom: the frame is set up at known offsets, a copy of the entry sp is kept in a
+    saved register, sp is then moved by an amount only known at run time (`sub sp, sp, reg`), stores
+    and loads go through sp at constant offsets while its position is unknown, sp is restored from
+    the copy, and the frame slots are read back. Nothing may be claimed about a slot because of a
+    store made while sp was unknown."""
+    out = []
+    for _ in range(n):
+        frame = rng.choice([16, 32, 48])
+        keep = frame - 8
+        fp = rng.choice(["s0", "s1", "s2"])
+        k1 = rng.choice([-4, -8, 0, 4, 8, keep, keep - frame, 12 - frame, -frame])
+        k2 = rng.choice([-4, -8, 0, 4, keep - frame])
+        v = rng.choice([7, 99, -1])
+        L = ["main:", f"    li a0, {rng.choice([41, 5, 1000])}", "    jal f", "    mv t0, a0", "    li a7, 10", "    ecall",
+             "f:", f"    addi sp, sp, -{frame}", f"    sw {fp}, {frame - 4}(sp)", f"    sw a0, {keep}(sp)",
+             f"    addi {fp}, sp, {frame}", "    andi t0, a1, 0x7c", "    addi t0, t0, 64", "    sub sp, sp, t0",
+             f"    li t1, {v}", f"    sw t1, {k1}(sp)"]
+        if rng.random() < 0.5:
+            L += [f"    sw a0, {k2}(sp)", f"    lw t3, {k2}(sp)", "    add t1, t1, t3"]
+        if rng.random() < 0.5:
+            L += [f"    lw t4, {k1}(sp)", "    add t1, t1, t4"]
+        L += [f"    addi sp, {fp}, -{frame}", f"    lw t2, {keep}(sp)", f"    lw {fp}, {frame - 4}(sp)",
+              f"    addi sp, sp, {frame}", "    add a0, t2, t1", "    ret"]
+        out.append("\n".join(L) + "\n")
+    return out
+
+
 def gen_programs(rng, n, sloppy_choices=(0, 0.1, 0.3), multi=0.15):
-    out = list(CORPUS) + branch_matrix() + ecall_matrix() + arith_matrix(rng)
+    out = list(CORPUS) + branch_matrix() + ecall_matrix() + arith_matrix(rng) + alloca_programs(rng)
     for _ in range(max(4, n // 10)):
         out.append(handler_program(rng))
         out.append(backward_layout(rng))
